@@ -508,3 +508,565 @@ Proof.
   destruct (Hs i) as (_ & _ & _ & H). rewrite Hi in H. exact H.
 Qed.
 Print Assumptions no_panic.
+
+(* ---- reachability is closed under steps ---- *)
+
+Lemma run_from_app : forall l1 l2 s,
+  run_from s (l1 ++ l2) = match run_from s l1 with Some s1 => run_from s1 l2 | None => None end.
+Proof.
+  induction l1 as [|l t IH]; simpl; intros l2 s; auto.
+  destruct (step s l); auto.
+Qed.
+
+Lemma reachable_init : reachable init.
+Proof. exists []. reflexivity. Qed.
+
+Lemma reachable_step : forall s l s', reachable s -> step s l = Some s' -> reachable s'.
+Proof.
+  intros s l s' [ls H] Hs. exists (ls ++ [l]). unfold run in *.
+  rewrite run_from_app, H. simpl. rewrite Hs. reflexivity.
+Qed.
+
+Lemma reachable_run_from : forall ls s s', reachable s -> run_from s ls = Some s' -> reachable s'.
+Proof.
+  induction ls as [|l t IH]; simpl; intros s s' Hr H.
+  - inversion H; subst; auto.
+  - destruct (step s l) as [s1|] eqn:E; [|discriminate].
+    eapply IH; [eapply reachable_step; eauto | eauto].
+Qed.
+
+(* ---- what one step can do to one slot ---- *)
+
+Lemma getg_upd_cases : forall i j f l,
+  getg (upd i f l) j = getg l j \/
+  (j = i /\ i < length l /\ getg (upd i f l) j = f (getg l j)).
+Proof.
+  intros i j f l. destruct (Nat.eq_dec j i) as [->|Hne].
+  - destruct (lt_dec i (length l)).
+    + right. split; [auto|split; [auto|]]. apply getg_upd_eq; auto.
+    + left. rewrite !getg_overflow; auto; try rewrite upd_length; lia.
+  - left. apply getg_upd_neq; auto.
+Qed.
+
+(* monotone facts of a slot, and the only way a flag goes up *)
+Definition slot_mono (g g' : gorec) : Prop :=
+  (tst g = TFired -> tst g' = TFired) /\
+  (stopped g = true -> stopped g' = true) /\
+  (tst g <> TNone -> tst g' = tst g \/ tst g' = TFired) /\
+  (sst g = SDone -> sst g' = SDone).
+
+Definition raise_step (s : state) (l : label) (i : nat) : Prop :=
+  l = LMain /\ i = cur s /\ getg (gos s) i = gfresh /\ exists t, pc s = PGoRaise t.
+
+Ltac upd_cases :=
+  match goal with
+  | |- context [getg (upd ?k ?f ?l) ?j] =>
+      let E := fresh "E" in let Hlt := fresh "Hlt" in
+      destruct (getg_upd_cases k j f l) as [E|(-> & Hlt & E)]; rewrite E; clear E
+  | |- context [getg (?l ++ [gfresh]) ?j] => rewrite (getg_app_fresh l j)
+  | |- _ => idtac
+  end.
+
+Lemma step_slot : forall s l s' i, Inv s -> step s l = Some s' ->
+  slot_mono (getg (gos s) i) (getg (gos s') i) /\
+  (flag (getg (gos s) i) = false -> flag (getg (gos s') i) = true -> raise_step s l i).
+Proof.
+  intros [p c gs m po gm h o pa ex] l s' i (Hpa & Hpo & Hslot & Hctl) Hstep; simpl in *.
+  subst pa po. unfold step in Hstep; simpl in Hstep. destruct ex; [discriminate|].
+  unfold raise_step, slot_mono; simpl.
+  destruct l as [cm| |k|k].
+  - unfold input_step in Hstep; simpl in Hstep. destruct p; try discriminate Hstep.
+    inversion Hstep; subst s'; simpl. splits; auto; intros; congruence.
+  - unfold main_step in Hstep; simpl in Hstep.
+    destruct p; unfold_step Hstep; break_in Hstep; inversion Hstep; subst s'; clear Hstep; simpl.
+    all: upd_cases.
+    all: unf.
+    all: destruct Hctl as (K1 & K2 & K3 & K4 & K5 & K6 & K7 & K8 & K9 & K10 & K11 & K12 & K13).
+    all: try (splits; auto; intros; congruence).
+    all: expose c gs; splits; intros; crunch; eauto.
+  - unfold search_step in Hstep; simpl in Hstep.
+    unfold_step Hstep; break_in Hstep; inversion Hstep; subst s'; clear Hstep; simpl.
+    all: upd_cases.
+    all: unf.
+    all: try (splits; auto; intros; congruence).
+    all: expose k gs; splits; intros; crunch.
+  - unfold timer_step in Hstep; simpl in Hstep.
+    unfold_step Hstep; break_in Hstep; inversion Hstep; subst s'; clear Hstep; simpl.
+    all: upd_cases.
+    all: unf.
+    all: try (splits; auto; intros; congruence).
+    all: expose k gs; splits; intros; crunch.
+Qed.
+
+(* "timer i has fired or a stop was processed for go i" *)
+Definition down_cond (s : state) (i : nat) : Prop :=
+  tst (getg (gos s) i) = TFired \/ stopped (getg (gos s) i) = true.
+
+Lemma down_cond_step : forall s l s' i, reachable s -> step s l = Some s' ->
+  down_cond s i -> down_cond s' i.
+Proof.
+  intros s l s' i Hr Hs Hd. destruct (step_slot s l s' i (Inv_reachable s Hr) Hs) as ((M1 & M2 & _) & _).
+  destruct Hd; [left|right]; auto.
+Qed.
+
+Lemma down_cond_flag : forall s i, reachable s -> down_cond s i -> flag (getg (gos s) i) = false.
+Proof.
+  intros s i Hr Hd. destruct (Inv_reachable s Hr) as (_ & _ & (_ & Hs & _) & _).
+  destruct (Hs i) as (_ & H & _). apply H; auto.
+Qed.
+
+(* once the timer of go i has fired or a stop was processed for go i, flag i is false in
+   every later state of every continuation *)
+Theorem flag_down_forever : forall ls s s' i, reachable s -> down_cond s i ->
+  run_from s ls = Some s' -> down_cond s' i /\ flag (getg (gos s') i) = false.
+Proof.
+  induction ls as [|l t IH]; simpl; intros s s' i Hr Hd H.
+  - inversion H; subst. split; auto. apply down_cond_flag; auto.
+  - destruct (step s l) as [s1|] eqn:E; [|discriminate].
+    eapply IH; [eapply reachable_step; eauto | eapply down_cond_step; eauto | eauto].
+Qed.
+Print Assumptions flag_down_forever.
+
+(* the only step that raises a flag is the `store(true)` of command_go, on the fresh
+   flag of that go: no search thread, no timer thread and no stop exist for it yet (F6a) *)
+Theorem flag_raised_only_before_timer : forall s l s' i, reachable s -> step s l = Some s' ->
+  flag (getg (gos s) i) = false -> flag (getg (gos s') i) = true ->
+  l = LMain /\ i = cur s /\ (exists t, pc s = PGoRaise t) /\
+  tst (getg (gos s) i) = TNone /\ sst (getg (gos s) i) = SNone /\
+  stopped (getg (gos s) i) = false.
+Proof.
+  intros s l s' i Hr Hs H0 H1.
+  destruct (step_slot s l s' i (Inv_reachable s Hr) Hs) as (_ & H).
+  destruct (H H0 H1) as (A & B & C & D). rewrite C. simpl. splits; auto.
+Qed.
+Print Assumptions flag_raised_only_before_timer.
+
+(* a timer thread, once spawned, is never replaced: sleeping -> fired *)
+Theorem timer_spawned_once : forall s l s' i, reachable s -> step s l = Some s' ->
+  tst (getg (gos s) i) <> TNone ->
+  tst (getg (gos s') i) = tst (getg (gos s) i) \/ tst (getg (gos s') i) = TFired.
+Proof.
+  intros s l s' i Hr Hs H.
+  destruct (step_slot s l s' i (Inv_reachable s Hr) Hs) as ((_ & _ & M & _) & _). auto.
+Qed.
+
+(* ------------------------------------------------------------------ *)
+(* 3. commands after bestmove are honoured                             *)
+(* ------------------------------------------------------------------ *)
+
+Ltac get_inv s Hr :=
+  let Hpa := fresh "Hpa" in let Hpo := fresh "Hpo" in
+  let Hslot := fresh "Hslot" in let Hctl := fresh "Hctl" in
+  destruct (Inv_reachable s Hr) as (Hpa & Hpo & Hslot & Hctl).
+
+Theorem after_bestmove_honoured : forall s, reachable s ->
+  In (EBestmove (cur s)) (out s) -> curflag s = false.
+Proof.
+  intros s Hr Hin. apply cnt_In in Hin. rewrite bestmove_count_exact in Hin by auto.
+  get_inv s Hr. unfold curflag.
+  destruct s as [p c gs m po gm h o pa ex]; simpl in *. unf.
+  destruct Hctl as (K1 & K2 & K3 & K4 & K5 & K6 & K7 & K8 & K9 & K10 & K11 & K12 & K13).
+  destruct (flag (getg gs c)); auto. exfalso.
+  destruct (K8 eq_refl) as [E|E].
+  - destruct (sst (getg gs c)); simpl in *; try discriminate; lia.
+  - rewrite (K11 E) in Hin. simpl in Hin. lia.
+Qed.
+Print Assumptions after_bestmove_honoured.
+
+(* the busy check of a following position / go / show / ucinewgame then takes the
+   "not busy" branch: no EErrorBusy (F6b) *)
+Theorem not_refused_after_bestmove : forall s, reachable s -> exited s = false ->
+  In (EBestmove (cur s)) (out s) ->
+  (forall ok, pc s = PPosLoad ok -> step s LMain = Some (set_pc s (PPosJoin ok))) /\
+  (forall t, pc s = PGoLoad t -> step s LMain = Some (set_pc s (PGoJoin t))) /\
+  (pc s = PShowLoad -> step s LMain = Some (set_pc s PShowJoin)) /\
+  (pc s = PNgLoad -> step s LMain = Some (set_pc s PNgJoin)).
+Proof.
+  intros s Hr Hex Hin. pose proof (after_bestmove_honoured s Hr Hin) as Hf.
+  unfold step, main_step. rewrite Hex.
+  splits; intros; match goal with H : pc s = _ |- _ => rewrite H end; rewrite Hf; reflexivity.
+Qed.
+
+(* the output only grows, and `cur` only moves when a go allocates its flag *)
+Lemma step_out_cur : forall s l s', step s l = Some s' ->
+  (out s' = out s \/ exists e, out s' = e :: out s) /\
+  (cur s' = cur s \/ (l = LMain /\ exists t, pc s = PGoNew t)).
+Proof.
+  intros [p c gs m po gm h o pa ex] l s' Hstep. unfold step in Hstep; simpl in *.
+  destruct ex; [discriminate|].
+  destruct l as [cm| |k|k].
+  - unfold input_step in Hstep; simpl in Hstep. destruct p; try discriminate Hstep.
+    inversion Hstep; subst s'; simpl. auto.
+  - unfold main_step in Hstep; simpl in Hstep.
+    destruct p; unfold_step Hstep; break_in Hstep; inversion Hstep; subst s'; clear Hstep; simpl;
+      eauto 6.
+  - unfold search_step in Hstep; simpl in Hstep.
+    unfold_step Hstep; break_in Hstep; inversion Hstep; subst s'; clear Hstep; simpl; eauto.
+  - unfold timer_step in Hstep; simpl in Hstep.
+    unfold_step Hstep; break_in Hstep; inversion Hstep; subst s'; clear Hstep; simpl; eauto.
+Qed.
+
+(* so "bestmove of the latest go is out" stays true until the next go creates its flag *)
+Theorem bestmove_of_cur_stable : forall s l s', step s l = Some s' ->
+  In (EBestmove (cur s)) (out s) ->
+  In (EBestmove (cur s')) (out s') \/ (l = LMain /\ exists t, pc s = PGoNew t).
+Proof.
+  intros s l s' Hs Hin. destruct (step_out_cur s l s' Hs) as ([Eo|[e Eo]] & [Ec|Ec]); auto;
+    left; rewrite Ec, Eo; simpl; auto.
+Qed.
+
+(* F6c: at most one search thread is alive, it belongs to the current slot, and whenever
+   the stdin thread is at `data.lock()` or inside the critical section of ucinewgame /
+   position / show / command_go (before its own spawn) every search thread has ended;
+   a search thread that still needs the game finds it present *)
+Definition in_data (p : pcT) : bool :=
+  match p with
+  | PNgLock | PNgClear | PNgUnlock | PPosLock _ | PPosSet _ | PPosUnlock
+  | PGoLock _ | PGoCheck _ | PGoRaise _ | PGoInfo | PGoTimer | PGoSpawn
+  | PShowLock | PShowPrint | PShowUnlock => true
+  | _ => false
+  end.
+
+Theorem one_search_thread : forall s i, reachable s -> i <> cur s ->
+  sst (getg (gos s) i) = SNone \/ sst (getg (gos s) i) = SDone.
+Proof.
+  intros s i Hr Hne. get_inv s Hr. destruct Hslot as (_ & Hs & _).
+  destruct (Hs i) as (H & _). destruct (H Hne); auto.
+Qed.
+
+Theorem lock_taken_after_join : forall s i, reachable s -> in_data (pc s) = true ->
+  sst (getg (gos s) i) = SNone \/ sst (getg (gos s) i) = SDone.
+Proof.
+  intros s i Hr Hp. destruct (Nat.eq_dec i (cur s)) as [->|Hne]; [|apply one_search_thread; auto].
+  get_inv s Hr. destruct s as [p c gs m po gm h o pa ex]; simpl in *. unf.
+  destruct Hctl as (K1 & K2 & K3 & K4 & K5 & K6 & K7 & K8 & K9 & K10 & K11 & K12 & K13).
+  assert (Hn : nohandle p = true) by (destruct p; simpl in *; congruence).
+  specialize (K9 Hn). subst h.
+  destruct (sst (getg gs c)); simpl in *; auto; specialize (K2 eq_refl); discriminate.
+Qed.
+
+Theorem game_kept_for_search : forall s i, reachable s ->
+  needs_game (sst (getg (gos s) i)) = true -> game s = true.
+Proof.
+  intros s i Hr Hn. destruct (Nat.eq_dec i (cur s)) as [->|Hne].
+  - get_inv s Hr. destruct Hctl as (_ & _ & _ & _ & _ & _ & K7 & _). auto.
+  - destruct (one_search_thread s i Hr Hne) as [E|E]; rewrite E in Hn; discriminate.
+Qed.
+Print Assumptions not_refused_after_bestmove.
+Print Assumptions lock_taken_after_join.
+Print Assumptions game_kept_for_search.
+
+(* ------------------------------------------------------------------ *)
+(* 5. no deadlock                                                      *)
+(* ------------------------------------------------------------------ *)
+
+Lemma all_cmds_complete : forall c, In c all_cmds.
+Proof. destruct c as [| | |[]|[]| | | |]; simpl; auto 12. Qed.
+
+Lemma step_not_exited : forall s l, step s l <> None -> exited s = false.
+Proof. intros s l H. unfold step in H. destruct (exited s); congruence. Qed.
+
+Lemma enabled_iff : forall s l, In l (enabled s) <-> step s l <> None.
+Proof.
+  intros s l. unfold enabled. rewrite filter_In. split.
+  - intros [_ H]. destruct (step s l); simpl in H; congruence.
+  - intros H. split; [|destruct (step s l); simpl; congruence].
+    pose proof (step_not_exited s l H) as Hex. unfold step in H. rewrite Hex in H.
+    unfold candidates. destruct l as [c| |i|i].
+    + apply in_or_app. left. apply in_map. apply all_cmds_complete.
+    + apply in_or_app. right. simpl. auto.
+    + apply in_or_app. right. simpl. right. apply in_or_app. left. apply in_map.
+      apply in_seq. split; [lia|]. simpl. apply sst_in_range.
+      unfold search_step in H. intros E. rewrite E in H. congruence.
+    + apply in_or_app. right. simpl. right. apply in_or_app. right. apply in_map.
+      apply in_seq. split; [lia|]. simpl. apply tst_in_range.
+      unfold timer_step in H. intros E. rewrite E in H. congruence.
+Qed.
+
+Definition joinpc (p : pcT) : bool :=
+  match p with
+  | PNgJoin | PPosJoin _ | PGoJoin _ | PShowJoin | PStopJoin | PWaitJoin => true
+  | _ => false
+  end.
+Definition lockpc (p : pcT) : bool :=
+  match p with
+  | PNgLock | PPosLock _ | PGoLock _ | PShowLock => true
+  | _ => false
+  end.
+
+Ltac prog :=
+  simp_hyps;
+  try match goal with H : mkGo _ _ _ _ = getg _ _ |- _ => rewrite <- H end;
+  simpl;
+  first [ solve [left; congruence]
+        | solve [right; splits; simpl; congruence]
+        | match goal with
+          | |- context [match ?x with _ => _ end] => is_var x; destruct x; simpl in *; prog
+          end
+        | solve [exfalso; crunch] ].
+
+(* a busy stdin thread can step, unless it sits in a join on the current search thread,
+   and then that thread can step *)
+Lemma main_progress : forall s, reachable s -> exited s = false -> pc s <> PIdle ->
+  step s LMain <> None \/
+  (joinpc (pc s) = true /\ handle s = Some (cur s) /\ step s (LSearch (cur s)) <> None).
+Proof.
+  intros s Hr Hex Hp. get_inv s Hr.
+  destruct s as [p c gs m po gm h o pa ex]; simpl in *. subst pa po ex.
+  unfold step; simpl. unfold main_step, search_step; simpl.
+  unf. destruct Hctl as (K1 & K2 & K3 & K4 & K5 & K6 & K7 & K8 & K9 & K10 & K11 & K12 & K13).
+  clear Hslot.
+  destruct p; try congruence;
+    unfold main_lock, main_join, main_unlock, main_dies, upd_slot, curflag; simpl;
+    try solve [left; congruence].
+  all: expose c gs.
+  all: prog.
+Qed.
+
+Theorem no_deadlock : forall s, reachable s -> exited s = false -> enabled s <> [].
+Proof.
+  intros s Hr Hex.
+  assert (H : exists l, In l (enabled s)).
+  { destruct (pc s) eqn:Hp.
+    1: { exists (LInput CUci). apply enabled_iff. unfold step, input_step. rewrite Hex, Hp. congruence. }
+    all: destruct (main_progress s Hr Hex) as [H|(_ & _ & H)]; try congruence;
+      [exists LMain | exists (LSearch (cur s))]; apply enabled_iff; exact H. }
+  destruct H as [l H]. intros E. rewrite E in H. destruct H.
+Qed.
+Print Assumptions no_deadlock.
+
+(* the stdin thread never waits at a lock: when it reaches `data.lock()` the mutex is free *)
+Theorem main_never_blocked_on_lock : forall s, reachable s -> exited s = false ->
+  lockpc (pc s) = true -> step s LMain <> None.
+Proof.
+  intros s Hr Hex Hl.
+  destruct (main_progress s Hr Hex) as [H|(Hj & _)]; auto.
+  - destruct (pc s); simpl in Hl; congruence.
+  - destruct (pc s); simpl in *; congruence.
+Qed.
+
+(* if the stdin thread is blocked it is in a join on the current search thread, and that
+   thread can step *)
+Theorem blocked_main_waits_for_runnable : forall s, reachable s -> exited s = false ->
+  pc s <> PIdle -> step s LMain = None ->
+  joinpc (pc s) = true /\ handle s = Some (cur s) /\ step s (LSearch (cur s)) <> None.
+Proof.
+  intros s Hr Hex Hp Hb. destruct (main_progress s Hr Hex Hp) as [H|H]; auto. congruence.
+Qed.
+Print Assumptions blocked_main_waits_for_runnable.
+
+(* and the awaited thread reaches its end by its own steps alone (at most 6), after which
+   the join completes: a blocked stdin thread needs no step of any other thread *)
+Definition rank (x : sstate) : nat :=
+  match x with
+  | SWaitLock => 6 | SSearching => 5 | SFinished => 4 | SCleared => 3 | SDropped => 2
+  | SPrinted => 1 | _ => 0
+  end.
+
+Lemma search_step_rank : forall s s', step s (LSearch (cur s)) = Some s' ->
+  cur s < length (gos s) -> panicked s = false -> poisoned s = false ->
+  (sst (getg (gos s) (cur s)) = SWaitLock -> game s = true) ->
+  S (rank (sst (getg (gos s') (cur s')))) = rank (sst (getg (gos s) (cur s))) /\
+  pc s' = pc s /\ handle s' = handle s /\ cur s' = cur s /\ exited s' = false.
+Proof.
+  intros [p c gs m po gm h o pa ex] s' Hstep Hc Hpa Hpo Hg; simpl in *. subst pa po.
+  unfold step in Hstep; simpl in Hstep. destruct ex; [discriminate|].
+  unfold search_step in Hstep; simpl in Hstep.
+  destruct (sst (getg gs c)) eqn:Es; unfold_step Hstep; break_in Hstep;
+    try (specialize (Hg eq_refl); discriminate);
+    inversion Hstep; subst s'; clear Hstep; simpl;
+    rewrite getg_upd_eq by assumption; simpl; auto.
+Qed.
+
+Theorem join_completes : forall s, reachable s -> exited s = false -> pc s <> PIdle ->
+  exists n s', n <= 6 /\ run_from s (repeat (LSearch (cur s)) n) = Some s' /\
+               pc s' = pc s /\ step s' LMain <> None.
+Proof.
+  intros s Hr Hex Hp.
+  remember (rank (sst (getg (gos s) (cur s)))) as k eqn:Hk.
+  assert (Hk6 : k <= 6) by (subst k; destruct (sst _); simpl; lia).
+  cut (exists n s', n <= k /\ run_from s (repeat (LSearch (cur s)) n) = Some s' /\
+                    pc s' = pc s /\ step s' LMain <> None).
+  { intros (n & s' & Hn & H). exists n, s'. split; [lia|auto]. }
+  clear Hk6. revert s Hr Hex Hp Hk. induction k as [|k IH]; intros s Hr Hex Hp Hk.
+  - destruct (main_progress s Hr Hex Hp) as [H|(_ & _ & H)].
+    + exists 0, s. simpl. auto.
+    + exfalso. unfold step in H. rewrite Hex in H. unfold search_step in H.
+      destruct (sst (getg (gos s) (cur s))); simpl in Hk; congruence.
+  - destruct (main_progress s Hr Hex Hp) as [H|(_ & _ & H)].
+    + exists 0, s. simpl. split; [lia|auto].
+    + destruct (step s (LSearch (cur s))) as [s1|] eqn:E; [|congruence].
+      get_inv s Hr.
+      assert (Hg : sst (getg (gos s) (cur s)) = SWaitLock -> game s = true).
+      { intros Ew. destruct Hctl as (_ & _ & _ & _ & _ & _ & K7 & _). apply K7. rewrite Ew. auto. }
+      destruct (search_step_rank s s1 E (proj1 Hslot) Hpa Hpo Hg) as (R1 & R2 & R3 & R4 & R5).
+      destruct (IH s1) as (n & s' & Hn & Hrun & Hpc & Hm).
+      * eapply reachable_step; eauto.
+      * auto.
+      * congruence.
+      * lia.
+      * exists (S n), s'. split; [lia|]. simpl. rewrite E. rewrite R4 in Hrun.
+        split; [auto|split; [congruence|auto]].
+Qed.
+Print Assumptions join_completes.
+
+(* isready: answered by two steps of the stdin thread, in any state in which it is idle,
+   without touching the mutex or any flag *)
+Theorem isready_answered : forall s, pc s = PIdle -> exited s = false ->
+  exists s1 s2, step s (LInput CIsReady) = Some s1 /\ step s1 LMain = Some s2 /\
+    out s2 = EReadyOk :: out s /\ pc s2 = PIdle /\ mutex s2 = mutex s /\ mutex s1 = mutex s /\
+    gos s2 = gos s /\ game s2 = game s.
+Proof.
+  intros [p c gs m po gm h o pa ex] Hp Hex; simpl in *. subst p ex.
+  eexists. eexists. unfold step; simpl. split; [reflexivity|]. simpl. split; [reflexivity|].
+  simpl. auto 10.
+Qed.
+
+(* the pending isready cannot be disabled or delayed by the other threads: they do not
+   touch the stdin thread's program counter *)
+Lemma other_threads_keep_pc : forall s l s', step s l = Some s' ->
+  (forall c, l <> LInput c) -> l <> LMain -> pc s' = pc s /\ exited s' = false.
+Proof.
+  intros [p c gs m po gm h o pa ex] l s' Hstep Hi Hm. unfold step in Hstep; simpl in *.
+  destruct ex; [discriminate|].
+  destruct l as [cm| |k|k]; try congruence.
+  - unfold search_step in Hstep; simpl in Hstep.
+    unfold_step Hstep; break_in Hstep; inversion Hstep; subst s'; clear Hstep; simpl; auto.
+  - unfold timer_step in Hstep; simpl in Hstep.
+    unfold_step Hstep; break_in Hstep; inversion Hstep; subst s'; clear Hstep; simpl; auto.
+Qed.
+
+Theorem isready_pending_answered : forall s, pc s = PIsReady -> exited s = false ->
+  exists s2, step s LMain = Some s2 /\ out s2 = EReadyOk :: out s /\ pc s2 = PIdle /\
+             mutex s2 = mutex s.
+Proof.
+  intros [p c gs m po gm h o pa ex] Hp Hex; simpl in *. subst p ex.
+  eexists. unfold step; simpl. split; [reflexivity|]. simpl. auto.
+Qed.
+
+(* ------------------------------------------------------------------ *)
+(* 6. quit                                                             *)
+(* ------------------------------------------------------------------ *)
+
+Theorem quit_exits : forall s, pc s = PIdle -> exited s = false ->
+  exists s1 s2, step s (LInput CQuit) = Some s1 /\ step s1 LMain = Some s2 /\ exited s2 = true.
+Proof.
+  intros [p c gs m po gm h o pa ex] Hp Hex; simpl in *. subst p ex.
+  eexists. eexists. unfold step; simpl. split; [reflexivity|]. simpl. split; reflexivity.
+Qed.
+
+(* whatever the other threads do after `quit` was read, the stdin thread's next step exits *)
+Theorem quit_pending_exits : forall s, pc s = PQuit -> exited s = false ->
+  exists s2, step s LMain = Some s2 /\ exited s2 = true.
+Proof.
+  intros [p c gs m po gm h o pa ex] Hp Hex; simpl in *. subst p ex.
+  eexists. unfold step; simpl. split; reflexivity.
+Qed.
+
+Theorem exited_is_final : forall s l, exited s = true -> step s l = None.
+Proof. intros s l H. unfold step. rewrite H. reflexivity. Qed.
+Print Assumptions quit_exits.
+
+(* ------------------------------------------------------------------ *)
+(* example schedules (checked by computation)                          *)
+(* ------------------------------------------------------------------ *)
+
+Definition M (n : nat) : list label := repeat LMain n.
+Definition Sr (i n : nat) : list label := repeat (LSearch i) n.
+
+(* what the examples look at: pc, stdout in chronological order, panicked, game,
+   flags, search threads, mutex, handle *)
+Definition obs (o : option state) :=
+  match o with
+  | Some s => Some (pc s, rev (out s), panicked s, game s, map flag (gos s), map sst (gos s),
+                    mutex s, handle s)
+  | None => None
+  end.
+Definition blocked (o : option state) (l : label) : bool :=
+  match o with Some s => negb (is_some (step s l)) | None => false end.
+
+(* `position startpos`: input, load, (no handle), lock, set, unlock *)
+Definition sched_pos : list label := LInput (CPosition true) :: M 5.
+
+(* (a) go timed; the timer fires before the search thread has taken the lock; ucinewgame.
+   This is the F6c schedule.  The flag is already down, so ucinewgame takes the
+   "not running" branch - and now waits in the join for the pending thread ... *)
+Definition sched_timer_newgame_1 : list label :=
+  sched_pos ++ LInput (CGo true) :: M 10 ++ [LTimer 1; LInput CNewGame; LMain].
+
+Example ex_timer_newgame_waits :
+  obs (run sched_timer_newgame_1) =
+    Some (PNgJoin, [EInfoTime], false, true, [false; false], [SNone; SWaitLock], MFree, Some 1)
+  /\ blocked (run sched_timer_newgame_1) LMain = true.
+Proof. vm_compute. split; reflexivity. Qed.
+
+(* ... the search thread runs (lock, search ends at once on the cleared flag, clear, drop,
+   bestmove, unlock), then ucinewgame goes on: no panic *)
+Example ex_timer_newgame_no_panic :
+  obs (run (sched_timer_newgame_1 ++ Sr 1 6 ++ M 4)) =
+    Some (PIdle, [EInfoTime; EBestmove 1], false, false, [false; false], [SNone; SDone],
+          MFree, None).
+Proof. vm_compute. reflexivity. Qed.
+
+(* (b) bestmove printed (search thread still holds the mutex), `position` arrives: the busy
+   check passes (no EErrorBusy, the F6b repair), the join waits for the thread's last
+   step, then position is carried out *)
+Definition sched_bestmove_position_1 : list label :=
+  sched_pos ++ LInput (CGo false) :: M 8 ++ Sr 1 5 ++ [LInput (CPosition true); LMain].
+
+Example ex_bestmove_then_position_not_refused :
+  obs (run sched_bestmove_position_1) =
+    Some (PPosJoin true, [EBestmove 1], false, false, [false; false], [SNone; SPrinted],
+          MSearch 1, Some 1)
+  /\ blocked (run sched_bestmove_position_1) LMain = true.
+Proof. vm_compute. split; reflexivity. Qed.
+
+Example ex_bestmove_then_position_accepted :
+  obs (run (sched_bestmove_position_1 ++ Sr 1 1 ++ M 4)) =
+    Some (PIdle, [EBestmove 1], false, true, [false; false], [SNone; SDone], MFree, None).
+Proof. vm_compute. reflexivity. Qed.
+
+(* (c) go / stop / go: the search is stopped and answers; a go without a new position is
+   refused with "no game" (every search thread drops the game) and uses up slot 2; after a
+   position, a timed go (slot 3) answers; its timer fires afterwards and only touches its
+   own flag *)
+Definition sched_go_stop_go : list label :=
+  sched_pos ++ LInput (CGo false) :: M 8 ++ Sr 1 1 ++ [LInput CStop; LMain] ++ Sr 1 5 ++ [LMain]
+  ++ LInput (CGo false) :: M 6
+  ++ sched_pos ++ LInput (CGo true) :: M 10 ++ Sr 3 6 ++ [LTimer 3].
+
+Example ex_go_stop_go :
+  obs (run sched_go_stop_go) =
+    Some (PIdle, [EBestmove 1; EErrorNoGame; EInfoTime; EBestmove 3], false, false,
+          [false; false; false; false], [SNone; SDone; SNone; SDone], MFree, Some 3).
+Proof. vm_compute. reflexivity. Qed.
+
+(* (d) wait: blocked in the join until the search thread has ended, then clears the flag *)
+Definition sched_wait_1 : list label := sched_pos ++ LInput (CGo false) :: M 8 ++ [LInput CWait].
+
+Example ex_wait_blocks : blocked (run sched_wait_1) LMain = true.
+Proof. vm_compute. reflexivity. Qed.
+
+Example ex_wait :
+  obs (run (sched_wait_1 ++ Sr 1 6 ++ M 2)) =
+    Some (PIdle, [EBestmove 1], false, false, [false; false], [SNone; SDone], MFree, None).
+Proof. vm_compute. reflexivity. Qed.
+
+(* (e) isready is answered while the search thread holds the mutex; a second go is refused *)
+Definition sched_isready_busy : list label :=
+  sched_pos ++ LInput (CGo false) :: M 8 ++ Sr 1 1
+  ++ [LInput CIsReady; LMain; LInput (CGo false); LMain; LMain].
+
+Example ex_isready_during_search :
+  obs (run sched_isready_busy) =
+    Some (PIdle, [EReadyOk; EErrorBusy], false, true, [false; true], [SNone; SSearching],
+          MSearch 1, Some 1)
+  /\ option_map enabled (run sched_isready_busy) =
+     Some (map LInput all_cmds ++ [LSearch 1]).
+Proof. vm_compute. split; reflexivity. Qed.
+
+Print Assumptions Inv_reachable.
+Print Assumptions main_never_blocked_on_lock.
+Print Assumptions isready_answered.
+Print Assumptions quit_pending_exits.
+Print Assumptions bestmove_of_cur_stable.
